@@ -1,12 +1,16 @@
 """C17 - the C interface is a faithful view of the <double> C++ API (DESIGN 2, C17).
 
-Every extern "C" definition of src/cmasa.cpp is classified and checked against
-the shape its class requires.  Nothing is matched by text: callees are the
-overloads clang resolved, arguments are ParmVarDecl references.
+Every extern "C" definition of src/cmasa.cpp is evaluated by forward
+substitution with the MASA:: templates kept opaque (a call event with its
+argument terms; output parameters of the template become opaque `out:` values).
+What is compared is the wrapper's effect on each path - which template it
+calls, with which argument terms, what it returns, what it writes through its
+pointer parameters - so named temporaries, std::string copies, reordered
+declarations and equivalent library idioms give the same verdict.
 """
 import re
-from ..ast import (peel_copy, strip, strip_fnptr, is_param, is_local, flat_stmts, calls, string_from,
-                   reads_local, reads_param, show, int_value, nodes)
+from .. import terms
+from ..ast import strip, nodes
 from ..ir import walk
 
 LEVEL = 'other'
@@ -16,7 +20,7 @@ RENAME = {'masa_set_array': 'masa_set_vec', 'masa_get_array': 'masa_get_vec', 'm
 # wrappers that have no C++ counterpart call by design
 SELF_CONTAINED = {'masa_test_default': 'documented purpose is to exit(); a literal copy of the template, solution independent'}
 STATUS_FUNCS = ('masa_init_param', 'masa_sanity_check', 'masa_get_array')
-STRING_T = 'std::basic_string<char'
+CONVERTING = ('FloatingCast', 'FloatingToIntegral', 'IntegralToFloating', 'FloatingToBoolean')
 
 
 def cxx_name(cname):
@@ -26,31 +30,82 @@ def cxx_name(cname):
     return RENAME.get(cname, cname), None
 
 
-def arg_is_passthrough(arg, fn, want_idx):
-    """argument is exactly parameter want_idx of the wrapper, possibly wrapped in a
-    std::string construction (const char* -> std::string) or a (*f) on a function pointer"""
-    a = strip(arg)
-    s = string_from(a)
-    if s is not None:
-        return is_param(s, want_idx), 'string'
-    a = strip_fnptr(a)
-    if is_param(a, want_idx):
-        return True, 'direct'
-    return False, None
+def wrapper_eval(prog, f):
+    """(Evaluator, paths) of extern "C" wrapper f; MASA:: callees are opaque, their writable pointer / reference arguments
+    become ('call', 'out:<callee>:<index>', ())"""
+    E = terms.Evaluator(prog, inline=False)
+
+    def hook(ev, e, n, obj, args_e, P, fr):
+        q = e.get('q') or ''
+        if not q.startswith('MASA::') or not e.get('inrepo'):
+            return None
+        callee = prog.by_q.get(q, [])
+        args = tuple(ev.E(a, P, fr) for a in args_e)
+        P.events.append(('call', (q, args, None, e.get('sig'), False), e.get('l')))
+        ptypes = [p['t'] for p in callee[0].params] if len(callee) == 1 else []
+        for i, a in enumerate(args_e):
+            t = ptypes[i] if i < len(ptypes) else ''
+            out = None
+            a0 = strip(a, casts=True)
+            if t.endswith('*') and not t.startswith('const ') and a0.get('k') == 'un' and a0['op'] == '&':
+                out = a0['e']
+            elif t.endswith('&') and not t.startswith('const ') and not t.endswith('&&'):
+                out = a
+            if out is not None:
+                ev.assign(out, ('call', 'out:%s:%d' % (n, i), ()), P, fr, e.get('l'))
+        return ('call', 'repo:' + n, args)
+    E.call_hook = hook
+    outs = E.run(f)
+    return E, list(outs) + [p for p in E.trace.exit_paths if p not in outs]
+
+
+def flat(events):
+    out = []
+    for e in events:
+        if e[0] == 'branch':
+            for k_, c_, sub in e[1][1]:
+                out.extend(flat(sub))
+        else:
+            out.append(e)
+    return out
+
+
+def param_term(f, i, t):
+    """is term t parameter i of f passed on unchanged (a function pointer may be written f or *f)"""
+    n = f.params[i]['n']
+    if t == ('sym', n):
+        return True
+    if '(*)' in f.params[i]['t'] and t in (('sym', n + '*'), ('deref', ('sym', n))):
+        return True
+    return False
+
+
+def untrunc(t):
+    while t[0] == 'call' and t[1] == 'trunc' and len(t[2]) == 1:
+        t = t[2][0]
+    return t
+
+
+def ptr_off(t):
+    """pointer term -> (base term, offset term)"""
+    if t[0] == 'addr' and t[1][0] == 'elem':
+        return t[1][1], t[1][2]
+    if t[0] == 'add' and len(t[1]) == 2:
+        return t[1][0], t[1][1]
+    return t, terms.num(0)
 
 
 def run(ctx, prog):
-    ctx.rule('C17.R1', 'evaluator wrapper masa_eval_<n>d_<kind>_<X> is a single `return MASA::masa_eval_<kind>_<X><double>(params in order)`; '
-             'n equals the number of double parameters; no cast, no arithmetic')
+    ctx.rule('C17.R1', 'evaluator wrapper masa_eval_<n>d_<kind>_<X>: one path, whose only effect is one call MASA::masa_eval_<kind>_<X><double>(parameters in order, unconverted) and which returns that value; '
+             'n equals the number of double parameters')
     ctx.rule('C17.R2', 'data movers forward name and value unchanged; masa_set_array builds the vector from exactly [val, val+*n); '
              'masa_get_array stores vec.size() to *n and copies every element in index order')
     ctx.rule('C17.R3', 'the int returned by masa_init_param / masa_sanity_check / masa_get_array is the value the C++ callee returned on every path')
-    ctx.rule('C17.R4', "masa_get_name writes the caller's buffer with bytes flowing from the string filled by MASA::masa_get_name<double>, and never reads the buffer first")
+    ctx.rule('C17.R4', "masa_get_name copies the whole string filled by MASA::masa_get_name<double> (all its characters and the terminator) into the caller's buffer, and never reads the buffer first")
     ctx.rule('C17.R5', 'every MASA:: template called from an extern "C" function is the <double> instantiation and is the same-named entry point')
     ctx.rule('C17.R6', 'non-evaluator wrappers call their C++ counterpart exactly once on every path with their parameters passed through in order')
-    ctx.explanation = ('Each extern "C" definition in cmasa.cpp is compared with the shape its class requires '
-                       '(single forwarding return / data mover / status forwarder). The wrappers contain no arithmetic, so '
-                       'shape equality implies bit-identical results for every argument and every registry state.')
+    ctx.explanation = ('Each extern "C" definition in cmasa.cpp is evaluated path by path with the C++ templates opaque. The wrappers contain no arithmetic, so '
+                       'equality of the argument terms with the parameters and of the returned term with the callee\'s value implies bit-identical results for every argument and every registry state.')
 
     tu = 'cmasa.cpp'
     ctx.require(tu in prog.fn_by_tu, 'src/cmasa.cpp not analysed')
@@ -60,312 +115,289 @@ def run(ctx, prog):
     seen_status = set()
     for f in wrappers:
         name = f.n
-        body = f.body
         cxx, ndim = cxx_name(name)
         want_q = 'MASA::%s<double>' % cxx
-        masa_calls = [c for c in calls(body) if (c.get('q') or '').startswith('MASA::')]
+        E, paths = wrapper_eval(prog, f)
+        per_path = [(o, flat(o.events)) for o in paths]
+        all_calls = [e for o, evs in per_path for e in evs if e[0] == 'call']
         # ---- R5: double instantiation, same-named entry point
         if name in SELF_CONTAINED:
-            ctx.ob('C17.R5', name, len(masa_calls) == 0, f.where, 'self-contained wrapper now calls into MASA::', nontrivial=False)
+            ctx.ob('C17.R5', name, len(all_calls) == 0, f.where, 'self-contained wrapper now calls into MASA::', nontrivial=False)
             continue
-        bad = [c for c in masa_calls if c['q'] != want_q]
-        ctx.ob('C17.R5', name, not bad and len(masa_calls) >= 1, f.where,
-               'calls %s, expected exactly %s' % ([c['q'] for c in masa_calls], want_q),
-               sample='%s -> %s' % (name, want_q))
-        if bad or not masa_calls:
+        bad = sorted(set(e[1][0] for e in all_calls if e[1][0] != want_q))
+        ctx.ob('C17.R5', name, not bad and len(all_calls) >= 1, f.where,
+               'calls %s, expected exactly %s' % (bad or 'nothing', want_q), sample='%s -> %s' % (name, want_q))
+        if bad or not all_calls:
             continue
-        call = masa_calls[0]
-        st = flat_stmts(body)
+        ret_paths = [(o, evs) for o, evs in per_path if o.kind != 'exit']
+        conv = [n for n in nodes(f.body, 'cast') if n.get('ck') in CONVERTING]
         if ndim is not None:
             n_eval += 1
             # ---- R1
-            ok = True
-            why = ''
-            if len(st) != 1 or st[0].get('k') != 'return' or strip(st[0]['e']) is not call:
-                ok, why = False, 'body is not a single `return <call>`'
-            nd = sum(1 for p in f.params if p['t'] == 'double')
-            if ok and nd != ndim:
-                ok, why = False, 'name says %dd but the wrapper takes %d double coordinates' % (ndim, nd)
-            if ok and len(call['args']) != len(f.params):
-                ok, why = False, 'callee receives %d arguments, wrapper has %d parameters' % (len(call['args']), len(f.params))
+            ok, why = True, ''
+            if len(paths) != 1 or len(ret_paths) != 1:
+                ok, why = False, 'has %d paths (%d returning), expected one' % (len(paths), len(ret_paths))
             if ok:
-                for i, a in enumerate(call['args']):
-                    good, how = arg_is_passthrough(a, f, i)
-                    if not good or how == 'string':
-                        ok, why = False, 'argument %d is `%s`, expected parameter %s unchanged' % (i + 1, show(a), f.params[i]['n'])
-                        break
-            if ok and f.ret != 'double':
-                ok, why = False, 'returns %s' % f.ret
-            if ok and any(True for _ in nodes(body, 'cast')):
-                ok, why = False, 'a conversion occurs inside the wrapper'
-            ctx.ob('C17.R1', name, ok, f.where, why, sample='%s(%s) = return %s(%s)' % (
-                name, ', '.join(p['t'] for p in f.params), want_q, ', '.join(show(a) for a in call['args'])))
+                o, evs = ret_paths[0]
+                cs = [e for e in evs if e[0] == 'call']
+                other = [e for e in evs if e[0] in ('libcall', 'write', 'write-through', 'store', 'print', 'new', 'delete', 'loop')]
+                nd = sum(1 for p in f.params if p['t'] == 'double')
+                if len(cs) != 1:
+                    ok, why = False, 'calls the C++ entry point %d times' % len(cs)
+                elif other:
+                    ok, why = False, 'has another effect (%s at %s)' % (other[0][0], other[0][2])
+                elif nd != ndim:
+                    ok, why = False, 'name says %dd but the wrapper takes %d double coordinates' % (ndim, nd)
+                elif len(cs[0][1][1]) != len(f.params):
+                    ok, why = False, 'callee receives %d arguments, wrapper has %d parameters' % (len(cs[0][1][1]), len(f.params))
+                else:
+                    for i, a in enumerate(cs[0][1][1]):
+                        if not param_term(f, i, a):
+                            ok, why = False, 'argument %d is `%s`, expected parameter %s unchanged' % (i + 1, terms.fmt(a)[:50], f.params[i]['n'])
+                            break
+                    if ok and o.ret != ('call', 'repo:' + cxx, cs[0][1][1]):
+                        ok, why = False, 'returns `%s`, not the value of the C++ call' % (terms.fmt(o.ret)[:50] if o.ret else None)
+                    elif ok and f.ret != 'double':
+                        ok, why = False, 'returns %s' % f.ret
+                    elif ok and conv:
+                        ok, why = False, 'a conversion (%s at %s) occurs inside the wrapper' % (conv[0]['ck'], conv[0].get('l'))
+            ctx.ob('C17.R1', name, ok, f.where, why, sample='%s(%s) = return %s(params)' % (name, ', '.join(p['t'] for p in f.params), want_q))
             continue
-        # ---- non-evaluator wrappers: R6 pass-through of parameters
+        # ---- non-evaluator wrappers: R6 exactly one call per path, parameters passed through
         ok, why = True, ''
-        if len(masa_calls) != 1:
-            ok, why = False, 'C++ counterpart called %d times' % len(masa_calls)
-        if ok:
-            ok, why = passthrough_ok(f, call, st)
-        ctx.ob('C17.R6', name, ok, f.where, why, sample='%s -> %s(%s)' % (name, want_q, ', '.join(show(a) for a in call['args'])))
+        call = None
+        for o, evs in ret_paths:
+            cs = [e for e in evs if e[0] == 'call']
+            if len(cs) != 1:
+                ok, why = False, 'C++ counterpart called %d times on a path' % len(cs)
+                break
+            call = cs[0]
+            args = call[1][1]
+            if name in ('masa_set_array', 'masa_get_array'):
+                if not (len(args) == 2 and param_term(f, 0, args[0])):
+                    ok, why = False, 'name argument is `%s`, expected parameter `%s`' % (terms.fmt(args[0])[:50] if args else None, f.params[0]['n'])
+            elif name == 'masa_get_name':
+                pass        # shape decided by R4
+            elif len(args) != len(f.params):
+                ok, why = False, 'callee receives %d arguments, wrapper has %d parameters' % (len(args), len(f.params))
+            else:
+                for i, a in enumerate(args):
+                    if not param_term(f, i, a):
+                        ok, why = False, 'argument %d is `%s`, expected parameter `%s` unchanged' % (i + 1, terms.fmt(a)[:50], f.params[i]['n'])
+                        break
+            if not ok:
+                break
+        if ok and not ret_paths:
+            ok, why = False, 'no returning path'
+        ctx.ob('C17.R6', name, ok, f.where, why, sample='%s -> %s(params)' % (name, want_q))
         # ---- R2 data movers
         if name == 'masa_set_array':
-            ok, why = check_set_array(f, call, st)
-            ctx.ob('C17.R2', name, ok, f.where, why, sample='vector built from [val, val+*n)')
+            ok2, why2 = check_set_array(f, ret_paths)
+            ctx.ob('C17.R2', name, ok2, f.where, why2, sample='vector built from [val, val+*n)')
         elif name == 'masa_get_array':
-            ok, why = check_get_array(f, call, st)
-            ctx.ob('C17.R2', name, ok, f.where, why, sample='*n = vec.size(); array[i] = vec[i] for i in [0,size)')
+            ok2, why2 = check_get_array(f, ret_paths)
+            ctx.ob('C17.R2', name, ok2, f.where, why2, sample='*n = vec.size(); array[i] = vec[i] for i in [0,size)')
         elif name in ('masa_set_param', 'masa_get_param'):
-            ok = len(st) == 1 and st[0]['k'] == 'return' and strip(st[0]['e']) is call and \
-                not [c for c in nodes(body, 'cast') if c['ck'] not in ('ConstructorConversion',)]
-            ctx.ob('C17.R2', name, ok, f.where, 'not a single forwarding return', sample=show(call))
+            ok2, why2 = ok, why
+            if ok2 and conv:
+                ok2, why2 = False, 'a conversion (%s) occurs inside the wrapper' % conv[0]['ck']
+            if ok2 and name == 'masa_get_param':
+                for o, evs in ret_paths:
+                    c0 = [e for e in evs if e[0] == 'call'][0]
+                    if o.ret != ('call', 'repo:' + cxx, c0[1][1]):
+                        ok2, why2 = False, 'returns `%s`, not the value of the C++ call' % (terms.fmt(o.ret)[:50] if o.ret else None)
+            ctx.ob('C17.R2', name, ok2, f.where, why2, sample='%s forwards its arguments and result unchanged' % name)
         # ---- R3
         if name in STATUS_FUNCS:
             seen_status.add(name)
-            ok, why = status_forwarded(f, call)
-            ctx.ob('C17.R3', name, ok, f.where, why, sample='returns the value of %s' % want_q)
+            ok3, why3 = status_forwarded(f, ret_paths, cxx)
+            ctx.ob('C17.R3', name, ok3, f.where, why3, sample='returns the value of %s' % want_q)
         # ---- R4
         if name == 'masa_get_name':
-            ok, why = check_get_name(f, call, st)
-            ctx.ob('C17.R4', name, ok, f.where, why, sample='buffer written from the string filled by the C++ call')
+            ok4, why4 = check_get_name(f, ret_paths)
+            ctx.ob('C17.R4', name, ok4, f.where, why4, sample='buffer written from the string filled by the C++ call')
     ctx.floor('evaluator_wrappers', n_eval, 78)
     ctx.require(seen_status == set(STATUS_FUNCS), 'status wrappers not found: %s' % (set(STATUS_FUNCS) - seen_status))
     ctx.require(any(f.n == 'masa_get_name' for f in wrappers), 'masa_get_name wrapper not found')
     ctx.analysed['translation_unit'] = 'src/cmasa.cpp'
 
 
-def local_def(st, lid):
-    """the declaration (init expr) of local lid among top-level statements"""
-    for s in st:
-        if s.get('k') == 'decl':
-            for v in s['vars']:
-                if v['id'] == lid:
-                    return v
-    return None
-
-
-def passthrough_ok(f, call, st):
-    """argument i of the C++ call is parameter i (possibly through a std::string local or
-    temporary, or a local vector for the array functions)"""
-    args = call['args']
-    # array movers have (name, n, buffer) vs (name, vector)
-    if f.n in ('masa_set_array', 'masa_get_array'):
-        good, how = arg_is_passthrough(args[0], f, 0)
-        if not good:
-            return False, 'name argument is `%s`, expected parameter `%s`' % (show(args[0]), f.params[0]['n'])
-        if not is_local(args[1]):
-            return False, 'vector argument is not the local vector'
-        return True, ''
-    if f.n == 'masa_get_name':
-        return True, ''  # shape decided by R4
-    if len(args) != len(f.params):
-        return False, 'callee receives %d arguments, wrapper has %d parameters' % (len(args), len(f.params))
-    for i, a in enumerate(args):
-        good, how = arg_is_passthrough(a, f, i)
-        if good:
-            continue
-        a0 = peel_copy(a)
-        if is_local(a0):
-            v = local_def(st, a0['id'])
-            s = string_from(v['init']) if v else None
-            if s is not None and is_param(s, i):
-                # the local must not be modified between construction and the call
-                if not local_modified(st, a0['id'], call):
-                    continue
-        return False, 'argument %d is `%s`, expected parameter `%s` unchanged' % (i + 1, show(a), f.params[i]['n'])
+def check_set_array(f, ret_paths):
+    """the vector handed to masa_set_vec is built from exactly [val, val + *n)"""
+    if len(f.params) != 3:
+        return False, 'unexpected parameter list'
+    nname, vname = f.params[1]['n'], f.params[2]['n']
+    count = (('sym', nname + '*'), ('deref', ('sym', nname)))
+    for o, evs in ret_paths:
+        cs = [e for e in evs if e[0] == 'call']
+        if len(cs) != 1 or len(cs[0][1][1]) != 2:
+            return False, 'masa_set_vec is not called exactly once with (name, vector)'
+        v = cs[0][1][1][1]
+        lo = hi = None
+        if v[0] == 'call' and v[1] == 'vec_range':
+            lo, hi = v[2]
+        elif v[0] == 'call' and v[1] == 'container:assign' and len(v[2]) == 3:
+            lo, hi = v[2][1], v[2][2]
+        elif v[0] == 'call' and v[1] in ('container:insert',) and len(v[2]) == 4:
+            lo, hi = v[2][2], v[2][3]
+        if lo is None:
+            # push_back loops and other constructions are outside the recognised idioms
+            return None, 'the vector is built as `%s`: idiom not recognised, not decided' % terms.fmt(v)[:60]
+        (lb, lo_off), (hb, hi_off) = ptr_off(lo), ptr_off(hi)
+        if lb != ('sym', vname) or hb != ('sym', vname):
+            return False, 'the range [%s, %s) is not taken from the parameter %s' % (terms.fmt(lo)[:30], terms.fmt(hi)[:30], vname)
+        if lo_off != terms.num(0):
+            return False, 'range does not start at %s[0]: `%s`' % (vname, terms.fmt(lo)[:40])
+        if untrunc(hi_off) not in count:
+            return False, 'range does not end at %s[*%s]: `%s`' % (vname, nname, terms.fmt(hi)[:40])
     return True, ''
 
 
-def local_modified(st, lid, before_call):
-    """any statement before the call (other than its declaration) that mentions the local
-    in a non-const context: conservative = any mention at all"""
-    for s in st:
-        if any(n is before_call for n in walk(s)):
-            return False
-        if s.get('k') == 'decl' and any(v['id'] == lid for v in s['vars']):
-            # other variables' initialisers in the same decl must not mention it
-            continue
-        if reads_local(s, lid):
-            return True
-    return False
-
-
-def check_set_array(f, call, st):
-    vec = strip(call['args'][1])
-    v = local_def(st, vec['id'])
-    if not v or not v.get('init') or strip(v['init'], casts=True).get('k') != 'construct':
-        return False, 'vector is not constructed from the input range'
-    c = strip(v['init'], casts=True)
-    if not c['ctor'].startswith('void (double *, double *') and not c['ctor'].startswith('void (const double *, const double *'):
-        return False, 'vector constructor is `%s`, expected the iterator-range constructor' % c['ctor']
-    lo, hi = c['args'][0], c['args'][1]
-
-    def ptr_plus(e):
-        """returns ('val', offset-expr or 0)"""
-        e = strip(e)
-        if e.get('k') == 'un' and e['op'] == '&':
-            ix = strip(e['e'])
-            if ix.get('k') == 'index' and is_param(ix['base'], 2):
-                return strip(ix['idx'])
-        if is_param(e, 2):
-            return {'k': 'int', 'v': '0'}
-        if e.get('k') == 'bin' and e['op'] == '+' and is_param(e['a'], 2):
-            return strip(e['b'])
-        return None
-    l, h = ptr_plus(lo), ptr_plus(hi)
-    if l is None or int_value(l) != 0:
-        return False, 'range does not start at val[0]: `%s`' % show(lo)
-    if h is None or not (h.get('k') == 'un' and h['op'] == '*' and is_param(h['e'], 1)):
-        return False, 'range does not end at val[*n]: `%s`' % show(hi)
-    if local_modified(st, vec['id'], call):
-        return False, 'vector modified between construction and the call'
+def check_get_array(f, ret_paths):
+    """*n = size of the vector filled by masa_get_vec; array[i] = vec[i] for every i in [0, size)"""
+    if len(f.params) != 3:
+        return False, 'unexpected parameter list'
+    nname, aname = f.params[1]['n'], f.params[2]['n']
+    undecided = None
+    for o, evs in ret_paths:
+        ci = [i for i, e in enumerate(evs) if e[0] == 'call']
+        if len(ci) != 1:
+            return False, 'masa_get_vec is not called exactly once'
+        V = ('call', 'out:masa_get_vec:1', ())
+        after = evs[ci[0] + 1:]
+        before = evs[:ci[0]]
+        if any(e[0] in ('write-through', 'libcall', 'loop') for e in before):
+            return False, 'the output parameters are touched before the C++ call'
+        size_t = ('size', V)
+        st_n = [e for e in after if e[0] == 'write-through' and e[1] == ('sym', nname)]
+        if not (st_n and len(st_n[-1]) > 3 and untrunc(st_n[-1][3]) == size_t):
+            return False, 'vec.size() is not stored to *%s' % nname
+        copied = False
+        for e in after:
+            if e[0] == 'libcall' and e[1][0] in ('copy',) and len(e[1][1]) == 3:
+                a, b, d = e[1][1]
+                if a == ('mcall', V, 'begin', ()) and b == ('mcall', V, 'end', ()) and d == ('sym', aname):
+                    copied = True
+                elif d == ('sym', aname):
+                    return False, 'std::copy into the array does not take the whole vector'
+            if e[0] == 'libcall' and e[1][0] == 'copy_n' and len(e[1][1]) == 3:
+                a, n_, d = e[1][1]
+                if a == ('mcall', V, 'begin', ()) and untrunc(n_) == size_t and d == ('sym', aname):
+                    copied = True
+            if e[0] == 'libcall' and e[1][0] in ('memcpy', 'memmove') and e[1][1] and e[1][1][0] == ('sym', aname):
+                undecided = 'the elements are copied with %s: byte count not decided' % e[1][0]
+            if e[0] == 'loop' and e[1][0] is not None:
+                c = e[1][0]
+                ok_c = c[0] == 'cmp' and c[1] in ('<', '!=') and c[2][0] == 'call' and c[2][1] == 'loopvar' and c[2][2][0] == terms.num(0) and \
+                    untrunc(c[3]) in (size_t, ('sym', nname + '*'), ('deref', ('sym', nname)))
+                writes_arr = False
+                for kind, conds, sub in e[1][1]:
+                    wr = [x for x in sub if x[0] == 'write-through' and x[1][0] == 'elem' and x[1][1] == ('sym', aname)]
+                    if not wr:
+                        continue
+                    writes_arr = True
+                    iv = c[2] if ok_c else None
+                    dl = {x[1][0]: x[1][1] for x in sub if x[0] == 'delta'}
+                    itn = c[2][2][1][1][len('@loop:'):] if ok_c and c[2][2][1][0] == 'sym' else None
+                    step = dl.get(itn)
+                    good = ok_c and len(wr) == 1 and not conds and kind in ('fall', 'cont') and untrunc(wr[0][1][2]) == iv and len(wr[0]) > 3 and \
+                        wr[0][3] in (('elem', V, iv), ('mcall', V, 'at', (iv,))) and step == ('add', (iv, terms.num(1)))
+                    if not good:
+                        return False, 'the copy loop at %s is not `for i in [0, size): %s[i] = vec[i]`' % (e[2], aname)
+                    copied = True
+                if writes_arr and not ok_c:
+                    return False, 'copy loop bound is `%s`, expected i < vec.size()' % terms.fmt(c)[:60]
+        if not copied:
+            if undecided:
+                return None, undecided
+            return False, 'no element copy loop'
     return True, ''
 
 
-def check_get_array(f, call, st):
-    vec = strip(call['args'][1])
-    vid = vec['id']
-    # statements after the call
-    idx = None
-    for i, s in enumerate(st):
-        if any(n is call for n in walk(s)):
-            idx = i
-            break
-    after = st[idx + 1:]
-    size_store = False
-    copy_ok = False
-    why = ''
-
-    def is_vec_size(e):
-        e = strip(e, casts=True)
-        return e.get('k') == 'call' and e.get('n') == 'size' and is_local(e.get('obj'), vid)
-
-    def is_n_deref(e):
-        e = strip(e)
-        return e.get('k') == 'un' and e['op'] == '*' and is_param(e['e'], 1)
-    for s in after:
-        if s.get('k') == 'bin' and s['op'] == '=' and is_n_deref(s['a']) and is_vec_size(s['b']):
-            size_store = True
-        if s.get('k') == 'for':
-            init = s['init']
-            if not (init and init.get('k') == 'decl' and len(init['vars']) == 1 and int_value(init['vars'][0]['init']) == 0):
-                why = 'copy loop does not start at 0'
-                continue
-            iv = init['vars'][0]['id']
-            c = strip(s['c'])
-            if not (c.get('k') == 'bin' and c['op'] in ('<', '!=') and is_local(c['a'], iv) and
-                    (is_vec_size(c['b']) or (size_store and is_n_deref(c['b'])))):
-                why = 'copy loop bound is `%s`, expected i < vec.size()' % show(s['c'])
-                continue
-            inc = strip(s['inc'])
-            if not (inc.get('k') == 'un' and inc['op'] == '++' and is_local(inc['e'], iv)):
-                why = 'copy loop increment is not ++'
-                continue
-            body = flat_stmts(s['body'])
-            if len(body) == 1 and body[0].get('k') == 'bin' and body[0]['op'] == '=':
-                lhs, rhs = strip(body[0]['a']), strip(body[0]['b'], casts=False)
-                lhs_ok = lhs.get('k') == 'index' and is_param(lhs['base'], 2) and is_local(lhs['idx'], iv)
-                r = strip(rhs)
-                rhs_ok = r.get('k') == 'call' and r.get('n') in ('operator[]', 'at') and \
-                    is_local(r['args'][0] if r.get('opcall') else r.get('obj'), vid) and \
-                    is_local(r['args'][-1], iv, casts=True)
-                if lhs_ok and rhs_ok:
-                    copy_ok = True
-                else:
-                    why = 'copy statement is `%s`, expected array[i] = vec[i]' % show(body[0])
-            else:
-                why = 'copy loop body is not a single element assignment'
-    if not size_store:
-        return False, 'vec.size() is not stored to *n'
-    if not copy_ok:
-        return False, why or 'no element copy loop'
+def status_forwarded(f, ret_paths, cxx):
+    """every returning path yields the value of the C++ call (a literal 0 is accepted on a path whose condition says the value is 0)"""
+    if not ret_paths:
+        return False, 'no returning path'
+    for o, evs in ret_paths:
+        cs = [e for e in evs if e[0] == 'call']
+        if len(cs) != 1:
+            return False, 'C++ counterpart called %d times' % len(cs)
+        R = ('call', 'repo:' + cxx, cs[0][1][1])
+        if o.ret == R:
+            continue
+        zero = False
+        for c in o.conds:
+            neg = False
+            while c[0] == 'not':
+                neg = not neg
+                c = c[1]
+            if c == R and neg:
+                zero = True
+            if c[0] == 'cmp' and c[1] in ('==', '!=') and R in (c[2], c[3]) and terms.num(0) in (c[2], c[3]) and ((c[1] == '==') != neg):
+                zero = True
+        if o.ret == terms.num(0) and zero:
+            continue
+        return False, 'returns `%s` instead of the status of MASA::%s<double>' % (terms.fmt(o.ret)[:50] if o.ret is not None else None, cxx)
     return True, ''
 
 
-def status_forwarded(f, call):
-    """every return yields the value of `call` (DESIGN C17.R3)"""
-    st = flat_stmts(f.body)
-    holder = None   # local id holding the status
-    zero_known = False
-    rets = 0
-    for s in st:
-        k = s.get('k')
-        if k == 'decl':
-            for v in s['vars']:
-                if v.get('init') is not None and strip(v['init'], casts=False) is call:
-                    holder = v['id']
-            continue
-        if k == 'bin' and s['op'] == '=' and strip(s['b']) is call and is_local(s['a']):
-            holder = strip(s['a'])['id']
-            continue
-        if k == 'if' and holder is not None:
-            c = strip(s['c'], casts=True)
-            cond_is_status = is_local(c, holder) or (
-                c.get('k') == 'bin' and c['op'] == '!=' and
-                ((is_local(c['a'], holder) and int_value(c['b']) == 0) or (is_local(c['b'], holder) and int_value(c['a']) == 0)))
-            th = flat_stmts(s['then'])
-            if cond_is_status and th and th[-1].get('k') == 'return' and s.get('else') is None:
-                e = strip(th[-1]['e'])
-                if not is_local(e, holder):
-                    return False, 'early return yields `%s`, not the callee status' % show(th[-1]['e'])
-                rets += 1
-                zero_known = True
-                continue
-        for r in nodes(s, 'return'):
-            rets += 1
-            e = strip(r['e'])
-            if e is call:
-                continue
-            if holder is not None and is_local(e, holder):
-                continue
-            if zero_known and int_value(e) == 0:
-                continue
-            return False, 'returns `%s` at %s instead of the status of %s' % (show(r['e']), r['l'], call['q'])
-        # the holder must not be overwritten
-        if holder is not None and k == 'bin' and is_local(s['a'], holder):
-            return False, 'status variable overwritten'
-    if rets == 0:
-        return False, 'no return statement'
-    return True, ''
-
-
-WRITERS = {'strcpy': (0, 1), 'strncpy': (0, 1), 'memcpy': (0, 1), 'memmove': (0, 1), 'stpcpy': (0, 1),
-           'sprintf': (0, None), 'snprintf': (0, None)}
-
-
-def check_get_name(f, call, st):
-    # the std::string handed to the C++ call
-    a = strip(call['args'][0])
-    if not (a.get('k') == 'un' and a['op'] == '&' and is_local(a['e'])):
-        return False, 'C++ call does not receive the address of a local string'
-    sid = strip(a['e'])['id']
-    v = local_def(st, sid)
-    # O5 / R4: the output buffer must not be read before it is written
-    if v is not None and v.get('init') is not None and reads_param(v['init'], 0):
-        return False, "the caller's buffer is read (std::string constructed from it) before anything was written to it"
-    seen_call = False
-    for s in st:
-        if any(n is call for n in walk(s)):
-            seen_call = True
-            continue
-        if not seen_call:
-            if reads_param(s, 0):
+def check_get_name(f, ret_paths):
+    """the caller's buffer receives every character of the string the C++ call filled, and a terminator"""
+    buf = ('sym', f.params[0]['n'])
+    S = ('call', 'out:masa_get_name:0', ())
+    cstr = (('mcall', S, 'c_str', ()), ('mcall', S, 'data', ()))
+    length = (('mcall', S, 'size', ()), ('mcall', S, 'length', ()), ('size', S)) + tuple(('call', 'lib:strlen', (c,)) for c in cstr)
+    if not ret_paths:
+        return False, 'no returning path'
+    for o, evs in ret_paths:
+        ci = [i for i, e in enumerate(evs) if e[0] == 'call']
+        if len(ci) != 1:
+            return False, 'MASA::masa_get_name<double> is not called exactly once'
+        if evs[ci[0]][1][1] and buf in list(terms.subterms(evs[ci[0]][1][1][0])):
+            return False, "the caller's buffer is read (the string handed to the C++ call is built from it) before anything was written to it"
+        for e in evs[:ci[0]]:
+            if e[0] in ('libcall', 'write-through') and buf in [x for t in (e[1] if isinstance(e[1], tuple) else ()) for x in (terms.subterms(t) if isinstance(t, tuple) else ())]:
                 return False, "the caller's buffer is used before the C++ call"
-            continue
-        for c in calls(s):
-            n = c.get('n')
-            if n in WRITERS:
-                d, src = WRITERS[n]
-                if is_param(c['args'][d], 0) and any(reads_local(x, sid) for x in c['args'][1:]):
-                    return True, ''
-            if n == 'copy' and c.get('obj') is not None and is_local(c['obj'], sid) and is_param(c['args'][0], 0):
-                return True, ''
-            if n == 'copy' and 'rec' not in c and len(c['args']) == 3 and reads_local(c['args'][0], sid) and is_param(c['args'][2], 0):
-                return True, ''
-        if s.get('k') in ('for', 'while'):
-            for b in nodes(s, 'bin'):
-                if b['op'] == '=':
-                    lhs = strip(b['a'])
-                    if lhs.get('k') == 'index' and is_param(lhs['base'], 0) and reads_local(b['b'], sid):
-                        return True, ''
-    return False, "the caller's buffer is never written from the string filled by MASA::masa_get_name<double>"
+        done = None
+        why = "the caller's buffer is never written from the string filled by MASA::masa_get_name<double>"
+        after = evs[ci[0] + 1:]
+        for j, e in enumerate(after):
+            if e[0] != 'libcall':
+                continue
+            n, a = e[1]
+            if n in ('strcpy', 'stpcpy') and len(a) == 2 and a[0] == buf:
+                if a[1] in cstr:
+                    done = True
+                else:
+                    done, why = False, '%s copies `%s`, not the string filled by the C++ call' % (n, terms.fmt(a[1])[:40])
+            elif n in ('memcpy', 'memmove', 'strncpy') and len(a) == 3 and a[0] == buf:
+                cnt = untrunc(a[2])
+                if a[1] not in cstr:
+                    done, why = False, '%s copies `%s`, not the string filled by the C++ call' % (n, terms.fmt(a[1])[:40])
+                elif cnt[0] == 'add' and len(cnt[1]) == 2 and untrunc(cnt[1][0]) in length and cnt[1][1] == terms.num(1):
+                    done = True         # all characters and the terminator
+                elif cnt in length:
+                    # all characters; the terminator must be stored separately at buffer[length]
+                    term = [x for x in after[j + 1:] if x[0] == 'write-through' and x[1][0] == 'elem' and x[1][1] == buf and untrunc(x[1][2]) in length and len(x) > 3 and x[3] in (terms.num(0),)]
+                    if term:
+                        done = True
+                    else:
+                        done, why = False, '%s copies the characters but no terminator is stored at %s[length]' % (n, buf[1])
+                else:
+                    done, why = False, ('%s copies `%s` bytes: a count that is not the length of the name truncates longer names (and strncpy then leaves the buffer unterminated)'
+                                        % (n, terms.fmt(cnt)[:40]))
+            elif n in ('snprintf', 'sprintf') and a and a[0] == buf:
+                if n == 'snprintf':
+                    done, why = False, 'snprintf with a byte limit truncates names longer than the limit'
+                else:
+                    done, why = None, 'sprintf into the buffer: format not analysed, not decided'
+            elif n in ('copy', 'copy_n') and len(a) == 3 and a[2] == buf:
+                done, why = None, 'std::%s into the buffer: terminator not analysed, not decided' % n
+        if done is None and why.startswith("the caller's buffer is never"):
+            # element-wise loops etc.
+            if any(e[0] == 'loop' for e in after):
+                return None, 'the buffer is filled by a loop: not decided'
+            return False, why
+        if done is not True:
+            return done, why
+    return True, ''
